@@ -5,6 +5,7 @@ import (
 	"go/ast"
 	"go/token"
 	"go/types"
+	"sort"
 	"strings"
 )
 
@@ -60,6 +61,7 @@ type Trans struct {
 	pubTypes    map[*types.TypeName]bool
 	pubInfos    map[*FuncInfo]*pubInfo
 	freshMemo   map[*types.Func]int // 0 unknown, 1 in progress, 2 yes, 3 no
+	channels    []ChanDecl
 	selN        int
 	connBad     map[token.Pos]string
 	bufInfos    map[*FuncInfo]*bufInfo
@@ -593,6 +595,27 @@ func (c *fnCtx) lockOp(call *ast.CallExpr) (*Stmt, bool) {
 		}
 	}
 	if gs == nil {
+		// a second mutex inside a struct of the guard table: somebody has moved a guarded field under another lock
+		if inner, ok := stripParens(se.X).(*ast.SelectorExpr); ok {
+			if sel := c.pkg.Info.Selections[inner]; sel != nil && sel.Kind() == types.FieldVal {
+				rt := sel.Recv()
+				if p, isPtr := rt.(*types.Pointer); isPtr {
+					rt = p.Elem()
+				}
+				if n, isNamed := rt.(*types.Named); isNamed {
+					if g := c.t.specOf[n.Obj()]; g != nil {
+						var fs []string
+						for f := range g.Fields {
+							fs = append(fs, f)
+						}
+						sort.Strings(fs)
+						c.t.fail(call.Pos(), "guard-changed: %s() on %s.%s, a mutex that is not the guard of %s in the guard table (the specification says %s {%s} are guarded by %s): a guarded field has been moved under another lock, so accesses under the new lock and under the old one no longer exclude each other - change the code back or change the specification (guard_table in coq/Model/LockIR.v and translator/lock/load.go) deliberately",
+							se.Sel.Name, g.Type, inner.Sel.Name, g.Type, g.Type, strings.Join(fs, ", "), g.LockLabel)
+						return skip(), true
+					}
+				}
+			}
+		}
 		c.t.fail(call.Pos(), "%s() on something that is not a mutex of the guard table (unknown lock)", se.Sel.Name)
 		return skip(), true
 	}
